@@ -386,12 +386,15 @@ KNOWN = [
 
 
 def must_fail(doc):
-    """the three kinds of inexpressible document the property names"""
+    """the kinds of inexpressible document the property names (no root / root not an element, a node that is neither tuple nor
+    string, both name and text)"""
     if doc[0] != "t":
         return True
     root = field(doc[1], "root")
     if root is None:
         return True
+    if root[0] != "t" or field(root[1], "name") is None:
+        return True               # the root must be an element (reference: "the root element of the document")
 
     def node(n):
         if n[0] == "s":
